@@ -121,6 +121,7 @@ def main():
     ap.add_argument("--suffix", default=None, help="only the variants whose suffix letter is in this string (e.g. efst = round 3)")
     ap.add_argument("--own", action="store_true", help="run only the check of the property the change targets")
     ap.add_argument("--jobs", type=int, default=8)
+    ap.add_argument("--start", default=None, help="skip the variants that sort before this name")
     ap.add_argument("--checks", default=None, help="comma-separated property ids: run only these checks and merge their columns into the existing table")
     ap.add_argument("--fast", action="store_true", help="skip the (slow) C13 check for changes that do not target C13 and do not touch the type system")
     a = ap.parse_args()
@@ -129,16 +130,18 @@ def main():
         dirs = [d for d in dirs if a.only in d.name]
     if a.suffix:
         dirs = [d for d in dirs if d.name.split("-")[-1] in a.suffix]
+    if a.start:
+        dirs = [d for d in dirs if d.name >= a.start]
     allp = checks()
     if a.checks:
         allp = [p for p in allp if p in a.checks.split(",")]
     out = {}
-    if (a.only or a.suffix or a.checks) and (VERIF / "seeded" / "RESULTS.json").exists():
+    if (a.only or a.suffix or a.checks or a.start) and (VERIF / "seeded" / "RESULTS.json").exists():
         out = json.loads((VERIF / "seeded" / "RESULTS.json").read_text())
 
     def job(d):
         meta = json.loads((d / "meta.json").read_text()) if (d / "meta.json").exists() else {}
-        props = [meta.get("property")] if a.own and meta.get("property") in allp else allp
+        props = ([meta.get("property")] if meta.get("property") in allp else []) if a.own else allp
         if a.fast and meta.get("property") != "C13":
             touched = (d / "patch.diff").read_text()
             if "tree/types.py" not in touched and "ops/" not in touched:
